@@ -272,7 +272,7 @@ Proof.
         apply nth_error_None in H. congruence.
     + intros i s b k0 Hi Hb Hk. destruct (nth_error (r_ops r) i) as [os|] eqn:Eos.
       * rewrite (map_nth_error _ _ _ Eos) in Hi. injection Hi as <-.
-        rewrite forallb_forall in Wt. specialize (Wt _ Hdf). cbn in Wt.
+        rewrite forallb_forall in Wt. specialize (Wt _ Hdf). cbn [fst] in Wt. rewrite Hd in Wt.
         now rewrite (tags_from_nth _ _ _ _ _ _ _ Wt Eos Hb Hk).
       * apply nth_error_None in Eos. assert (length (map (thread_batches d) (r_ops r)) <= i) by (now rewrite map_length).
         apply nth_error_None in H. congruence.
